@@ -12,10 +12,11 @@ BASELINE = ("cd /repo && /venv/bin/python -m pytest -ra -q -p no:cacheprovider -
 def main():
     props = [json.loads(l) for l in (VERIF / "properties.jsonl").read_text().splitlines() if l.strip()]
     checks, na, served = [], [], []
+    claimed = set((VERIF / "harness" / "claimed.txt").read_text().split())
     for p in props:
         pid = p["id"]
         f = VERIF / "harness" / "props" / f"{pid.lower()}.py"
-        if not f.exists():
+        if not f.exists() or pid not in claimed:
             na.append({"property_id": pid, "reason": "check not built yet (planned in DESIGN.md section 4); not claimed"})
             continue
         mod = importlib.import_module(f"harness.props.{pid.lower()}")
